@@ -185,6 +185,9 @@ var initWhitelist = map[string]bool{
 	"math/rand": false, "container/list": true,
 }
 
+// packages whose (expensive, table-building) init is run on first use only
+var lazyInit = map[string]bool{"strconv": true}
+
 func allowInit(path string) bool {
 	if strings.HasPrefix(path, "gonum.org/") || strings.HasPrefix(path, "golang.org/x/exp") {
 		return true
@@ -224,6 +227,9 @@ func (w *Worker) external(fn *ssa.Function, args []Value) (Value, bool) {
 	if fn.Name() == "init" && fn.Pkg != nil && fn.Signature.Recv() == nil && fn.Parent() == nil && len(fn.Params) == 0 {
 		if !allowInit(fn.Pkg.Pkg.Path()) {
 			return nil, true
+		}
+		if lazyInit[fn.Pkg.Pkg.Path()] && !w.lazyForce {
+			return nil, true // run on first use of the package (see callFunction)
 		}
 		return nil, false
 	}
